@@ -160,3 +160,52 @@ Example ex_static :
   (static_ok [mkLookup 0 0 [SMultiple [(1, [])]]] None, static_ok [mkLookup 0 0 [SUnsupported]] None,
    static_ok [mkLookup 16 5 []] gdx, static_ok ll_3_08 gdx) = (false, false, false, true).
 Proof. vm_compute. reflexivity. Qed.
+
+(* GPOS 6.1: N directly after M, M unmoved: inside the domain *)
+Definition sub_mm := SMarkMark [(5, (0%nat, (10, 20)%Z))] [(4, [Some (100, 200)%Z])].
+Example ex_markmark :
+  (map (fun g => (gx g, gy g)) (R_shape [mkLookup 0 0 [sub_mm]] gdx [0%nat] [GA 1 65 600; G 4 77; G 5 78]),
+   in_domain [mkLookup 0 0 [sub_mm]] gdx [0%nat] [GA 1 65 600; G 4 77; G 5 78])
+  = ([(0, 0); (0, 0); (90, 180)]%Z, true).
+Proof. vm_compute. reflexivity. Qed.
+Example ex_markmark_hyps :
+  match next_kept (keep gdx 0 0) (rev (firstn 2 [GA 1 65 600; G 4 77; G 5 78])) 0 with
+  | Some (g2, l2, d) =>
+    (gid g2, d, mm_same (Some (g2, l2, d)) (find_base [(4, [Some (100, 200)%Z])] (rev (firstn 2 [GA 1 65 600; G 4 77; G 5 78])) 1))
+  | None => (0, 0%nat, false) end = (4, 0%nat, true).
+Proof. vm_compute. reflexivity. Qed.
+(* open finding c06-gpos6-markmark, class 1: M A N - the rule: the glyph before
+   N is A (kept, no mark2 record): no attachment; the implementation attaches
+   N to M across A.  Outside the domain. *)
+Example ex_markmark_walks_past_kept_glyph :
+  (map (fun g => (gx g, gy g)) (R_shape [mkLookup 0 0 [sub_mm]] gdx [0%nat] [G 4 77; GA 1 65 600; G 5 78]),
+   in_domain [mkLookup 0 0 [sub_mm]] gdx [0%nat] [G 4 77; GA 1 65 600; G 5 78])
+  = ([(0, 0); (0, 0); (0, 0)]%Z, false).
+Proof. vm_compute. reflexivity. Qed.
+(* class 2: mark-to-base has moved M; the rule places N relative to the moved M
+   (x = -600 + 90); the implementation drops M's offset.  Outside the domain. *)
+Definition ll_mb_mm := [mkLookup 0 0 [SMarkBase [(4, (0%nat, (400, 0)%Z))] [(1, [Some (400, 1000)%Z])]];
+                        mkLookup 0 0 [sub_mm]].
+Example ex_markmark_mark2_moved :
+  (map (fun g => (gx g, gy g)) (R_shape ll_mb_mm gdx [0%nat; 1%nat] [GA 1 65 600; G 4 77; G 5 78]),
+   in_domain ll_mb_mm gdx [0%nat; 1%nat] [GA 1 65 600; G 4 77; G 5 78])
+  = ([(0, 0); (-600, 1000); (-510, 1180)]%Z, false).
+Proof. vm_compute. reflexivity. Qed.
+
+(* GSUB 8.1: A -> X with backtrack {A, B, M}.  From the end: A A A -> A X X
+   (every A still sees the original A before it); a forward scan gives A X A.
+   Outside the domain (open finding c06-gsub8-forward-order); "A A" is inside. *)
+Definition lk_r8 := mkLookup 0 0 [SRevChain [(1, 6)] [[1; 2; 4]] []].
+Example ex_reverse_chaining :
+  (is_reverse lk_r8,
+   gids (R_shape [lk_r8] gdx [0%nat] [G 1 1; G 1 2; G 1 3]),
+   gids (fst (scan [lk_r8] gdx gtab_actionBudget lk_r8 3 3 [G 1 1; G 1 2; G 1 3] true)),
+   in_domain [lk_r8] gdx [0%nat] [G 1 1; G 1 2; G 1 3],
+   gids (R_shape [lk_r8] gdx [0%nat] [G 1 1; G 1 2]),
+   in_domain [lk_r8] gdx [0%nat] [G 1 1; G 1 2])
+  = (true, [1; 6; 6], [1; 6; 1], false, [1; 6], true).
+Proof. vm_compute. reflexivity. Qed.
+Example ex_reverse_hyps :
+  (assoc 1 [(1, 6)], match_ctx (keep gdx 0 0) (map PCov [[1; 2; 4]]) (rev (firstn 1 [G 1 1; G 1 2])),
+   match_ctx (keep gdx 0 0) (map PCov []) (skipn 2 [G 1 1; G 1 2])) = (Some 6, true, true).
+Proof. vm_compute. reflexivity. Qed.
